@@ -447,6 +447,9 @@ func (ex *Exec) sliceElemPtr(s SliceV, i int) PtrV {
 }
 
 func (ex *Exec) sliceElems(st *State, s SliceV) []Value {
+	if s.SymLen != nil {
+		unsupported("element access on abstract (length-only) slice")
+	}
 	if s.Len == 0 {
 		return nil
 	}
